@@ -18,7 +18,8 @@ KIND_SCHEMA = {"str": S, "int": {"type": "integer"}, "float": {"type": "number"}
                "listenum": {"type": "array", "items": {"type": "string", "enum": ["a", "b"]}},
                "null": {"type": "null"}, "any": {}, "const": {"const": "k"}, "uis": {"oneOf": [{"type": "integer"}, S]},
                "model": {"type": "object", "properties": {"a": S}}}
-RECOVERABLE = {"canon", "pycap", "spacedt", "spread"}
+RECOVERABLE = {"canon", "pycap", "spacedt", "spread", "json", "filepart"}
+BODY_CT = {"form": "application/x-www-form-urlencoded", "multipart": "multipart/form-data"}
 LAWS = ["W1", "W2", "W3", "KnownExact", "Emit"]
 
 
@@ -33,22 +34,29 @@ def enumerate_cases(scratch_dir: Path):
     if bad:
         raise tlc.TlcFailure(f"ParamWire.tla: {bad} violated on the model\n{res.counterexample[:1500]}")
     cases = [c for c in res.printed if isinstance(c, dict) and "knownRejected" in c]
-    if len(cases) < 900:
+    if len(cases) < 1600:
         raise tlc.TlcFailure(f"ParamWireMC emitted only {len(cases)} cases")
     return res, cases
 
 
 def build_doc(params: list[dict]) -> tuple[dict, dict]:
-    paths, mods = {}, {}
+    paths, mods, schemas = {}, {}, {}
     for n, p in enumerate(params):
         sch = KIND_SCHEMA[p["kind"]]
         if p["nul"]:
             sch = {"oneOf": [sch, {"type": "null"}]}
+        if p["loc"] in BODY_CT:
+            # a property `p` of the body model (next to an ordinary property `z`)
+            schemas[f"B{n}"] = {"type": "object", "properties": {"p": sch, "z": S}, **({"required": ["p"]} if p["req"] else {})}
+            paths[f"/o{n}"] = {"post": {"operationId": f"o{n}", "tags": ["t"], "requestBody": {"content": {BODY_CT[p["loc"]]: {"schema": {"$ref": f"#/components/schemas/B{n}"}}}},
+                                        "responses": {"204": {"description": "d"}}}}
+            mods[pkey(p)] = f"t.o{n}"
+            continue
         path = f"/o{n}" + ("/{p}" if p["loc"] == "path" else "")
         paths[path] = {"get": {"operationId": f"o{n}", "tags": ["t"], "parameters": [{"name": "p", "in": p["loc"], "required": p["req"], "schema": sch}],
                                "responses": {"204": {"description": "d"}}}}
         mods[pkey(p)] = f"t.o{n}"
-    return gen.mkdoc(paths=paths), mods
+    return gen.mkdoc(schemas=schemas or None, paths=paths), mods
 
 
 def observe(scratch_dir: Path):
@@ -68,7 +76,8 @@ def observe(scratch_dir: Path):
         jobs = []
         for k, c in enumerate(mine):
             for variant in ("sync_detailed", "asyncio_detailed"):
-                jobs.append({"id": f"{k}:{variant}", "module": mods[pkey(c["p"])], "loc": c["p"]["loc"], "kind": c["p"]["kind"], "atom": c["a"], "variant": variant})
+                jobs.append({"id": f"{k}:{variant}", "module": mods[pkey(c["p"])], "loc": c["p"]["loc"], "kind": c["p"]["kind"], "atom": c["a"], "variant": variant,
+                             "body_class": ("B" + mods[pkey(c["p"])][3:]) if c["p"]["loc"] in BODY_CT else None})
         p = subprocess.run([VENV_PY, "-I", str(VERIF / "harness" / "runners" / "paramwire_runner.py")],
                            input=json.dumps({"parent": str(scratch_dir), "pkg": pkg, "cases": jobs}), capture_output=True, text=True, timeout=900)
         if p.returncode != 0:
@@ -101,7 +110,8 @@ def validate_trace(rep, cases: list[dict], scratch_dir: Path) -> None:
     for c in cases:
         r = c.get("real", {}).get("sync_detailed")
         if r and "t" in r and r["t"] in ("placed", "notsent", "raise"):
-            trace.append({"tid": len(trace) + 1, "p": c["p"], "a": c["a"], "t": r["t"], "f": r["f"] if r["f"] in ("canon", "pycap", "spacedt", "pyrepr", "spread", "bare", "-") else "other"})
+            trace.append({"tid": len(trace) + 1, "p": c["p"], "a": c["a"], "t": r["t"],
+                          "f": r["f"] if r["f"] in ("canon", "pycap", "spacedt", "pyrepr", "spread", "bare", "json", "filepart", "empty", "nonetext", "-") else "other"})
     if not trace:
         raise tlc.TlcFailure("ParamWire: nothing observed")
     good = next(i for i, e in enumerate(trace) if e["t"] == "placed" and e["f"] == "canon")
